@@ -149,9 +149,14 @@ func mentions(e SExpr, name string) bool {
 	return found
 }
 
-// quant compiles a quantifier whose guard bounds every variable: integer
-// ranges (lo <= i, i < hi, i <= hi), map keys (in(m, k)) or slice members
-// (memberOf(s, v)).
+// quant compiles a quantifier. Variables of map-key or slice-member kind are
+// enumerated from their guard (in(m, k), memberOf(s, v)). Integer variables
+// are enumerated over the fixed universe [replayLo, replayHi) with the whole
+// guard kept as a filter; this is exact when every bound of the guard lies
+// inside the universe, which is checked at run time for the bounds that do
+// not mention quantified variables (an index-style guard: 0 <= i && i < j &&
+// j < len(s)). A variable without both a lower and an upper bound in its
+// guard is not executable.
 func (c *goCompiler) quant(q SQuant) string {
 	var guard, body SExpr
 	if q.Forall {
@@ -161,31 +166,36 @@ func (c *goCompiler) quant(q SQuant) string {
 		}
 		guard, body = b.L, b.R
 	} else {
-		cs := conjuncts(q.Body)
-		if len(cs) < 2 {
-			return c.fail("exists without a guard: %s", exprString(q))
-		}
 		guard, body = q.Body, SBool{V: true}
 	}
 	gs := conjuncts(guard)
 	used := make([]bool, len(gs))
 	saved := map[string]string{}
-	var heads []string
+	names := map[string]bool{}
 	for _, v := range q.Vars {
 		if old, ok := c.env[v.Name]; ok {
 			saved[v.Name] = old
 		}
-		gv := "q_" + v.Name
-		c.env[v.Name] = gv
-		isInt := v.Type == "int" || v.Type == "int64"
-		lo, hi := "", ""
-		head := ""
-		for i, g := range gs {
-			if used[i] {
-				continue
+		c.env[v.Name] = "q_" + v.Name
+		names[v.Name] = true
+	}
+	closed := func(e SExpr) bool {
+		for n := range names {
+			if mentions(e, n) {
+				return false
 			}
-			if call, ok := g.(SCall); ok {
-				if id, ok := call.Fun.(SIdent); ok && len(call.Args) == 2 {
+		}
+		return true
+	}
+	var heads, checks []string
+	for _, v := range q.Vars {
+		gv := "q_" + v.Name
+		isInt := v.Type == "int" || v.Type == "int64"
+		head := ""
+		hasLo, hasHi := false, false
+		for i, g := range gs {
+			if call, ok := g.(SCall); ok && head == "" {
+				if id, ok := call.Fun.(SIdent); ok && len(call.Args) == 2 && closed(call.Args[0]) {
 					if a1, ok := call.Args[1].(SIdent); ok && a1.Name == v.Name {
 						switch id.Name {
 						case "in":
@@ -198,38 +208,42 @@ func (c *goCompiler) quant(q SQuant) string {
 					}
 				}
 			}
-			if head != "" {
-				break
-			}
 			b, ok := g.(SBin)
 			if !ok || !isInt {
 				continue
 			}
 			lid, lIs := b.L.(SIdent)
 			rid, rIs := b.R.(SIdent)
+			var other SExpr
 			switch {
-			case rIs && rid.Name == v.Name && !mentions(b.L, v.Name) && b.Op == "<=" && lo == "":
-				lo = c.expr(b.L)
-				used[i] = true
-			case rIs && rid.Name == v.Name && !mentions(b.L, v.Name) && b.Op == "<" && lo == "":
-				lo = "(" + c.expr(b.L) + ") + 1"
-				used[i] = true
-			case lIs && lid.Name == v.Name && !mentions(b.R, v.Name) && b.Op == "<" && hi == "":
-				hi = c.expr(b.R)
-				used[i] = true
-			case lIs && lid.Name == v.Name && !mentions(b.R, v.Name) && b.Op == "<=" && hi == "":
-				hi = "(" + c.expr(b.R) + ") + 1"
-				used[i] = true
-			case lIs && lid.Name == v.Name && !mentions(b.R, v.Name) && b.Op == ">=" && lo == "":
-				lo = c.expr(b.R)
-				used[i] = true
+			case rIs && rid.Name == v.Name && (b.Op == "<=" || b.Op == "<"):
+				hasLo, other = true, b.L
+			case lIs && lid.Name == v.Name && (b.Op == ">=" || b.Op == ">"):
+				hasLo, other = true, b.R
+			case lIs && lid.Name == v.Name && (b.Op == "<=" || b.Op == "<"):
+				hasHi, other = true, b.R
+			case rIs && rid.Name == v.Name && (b.Op == ">=" || b.Op == ">"):
+				hasHi, other = true, b.L
+			case (lIs && lid.Name == v.Name || rIs && rid.Name == v.Name) && b.Op == "==":
+				hasLo, hasHi = true, true
+				if lIs && lid.Name == v.Name {
+					other = b.R
+				} else {
+					other = b.L
+				}
+			}
+			if other != nil && closed(other) {
+				checks = append(checks, "replayInU(int64("+c.expr(other)+"))")
 			}
 		}
 		if head == "" {
-			if lo == "" || hi == "" {
-				return c.fail("quantified variable %s is not bounded by its guard in %s", v.Name, exprString(q))
+			if !isInt {
+				return c.fail("quantified variable %s %s has no enumerable guard in %s", v.Name, v.Type, exprString(q))
 			}
-			head = fmt.Sprintf("for %s := %s(%s); %s < %s(%s); %s++ {", gv, c.typeExpr(v.Type), lo, gv, c.typeExpr(v.Type), hi, gv)
+			if !hasLo || !hasHi {
+				return c.fail("quantified variable %s is not bounded on both sides by its guard in %s", v.Name, exprString(q))
+			}
+			head = fmt.Sprintf("for %s := %s(replayLo); %s < %s(replayHi); %s++ {", gv, c.typeExpr(v.Type), gv, c.typeExpr(v.Type), gv)
 		}
 		heads = append(heads, head)
 	}
@@ -253,6 +267,9 @@ func (c *goCompiler) quant(q SQuant) string {
 	}
 	var sb strings.Builder
 	sb.WriteString("func() bool {\n")
+	for _, ch := range checks {
+		sb.WriteString(ch + "\n")
+	}
 	for _, h := range heads {
 		sb.WriteString(h + "\n")
 	}
@@ -504,21 +521,34 @@ func (c *goCompiler) expr(e SExpr) string {
 var postNameRe = regexp.MustCompile(`/post\((.*)\)$`)
 
 func compilePostReplay(x *Exec, o *Oblig, rb *replayBuilder, decls []string, call string) (string, bool) {
-	if o.Class != "POST" || x.ctr == nil {
-		return "", false
-	}
-	m := postNameRe.FindStringSubmatch(o.Name)
-	if m == nil {
+	return compileReplay(x, o, rb, decls, call, false)
+}
+
+// compileReplay builds the body of the replay test for a POST obligation
+// (precondition check, call, clause check) or, with strictPre, for a SAFE
+// obligation whose inputs come from a relaxed query (precondition and
+// receiver-invariant check, call under recover). With strictPre every
+// requires clause and every invariant of the receiver's type must be
+// executable: a failure on inputs whose precondition was not checked on the
+// real code proves nothing.
+func compileReplay(x *Exec, o *Oblig, rb *replayBuilder, decls []string, call string, strictPre bool) (string, bool) {
+	if (o.Class != "POST" && o.Class != "SAFE") || (x.ctr == nil && o.Class == "POST") {
 		return "", false
 	}
 	var clause *Clause
-	for _, c := range x.ctr.Ensures {
-		if c.Label == m[1] || c.Src == m[1] {
-			clause = c
+	if o.Class == "POST" {
+		m := postNameRe.FindStringSubmatch(o.Name)
+		if m == nil {
+			return "", false
 		}
-	}
-	if clause == nil {
-		return "", false
+		for _, c := range x.ctr.Ensures {
+			if c.Label == m[1] || c.Src == m[1] {
+				clause = c
+			}
+		}
+		if clause == nil {
+			return "", false
+		}
 	}
 	fn := x.fn
 	c := &goCompiler{x: x, rb: rb, env: map[string]string{}, helpers: map[string]string{}, results: fn.Signature.Results().Len()}
@@ -526,27 +556,62 @@ func compilePostReplay(x *Exec, o *Oblig, rb *replayBuilder, decls []string, cal
 		c.env[p.Name()] = fmt.Sprintf("in%d", i)
 	}
 	var pres []string
-	for _, r := range x.ctr.Requires {
+	var preSrc []*Clause
+	if x.ctr != nil {
+		preSrc = append(preSrc, x.ctr.Requires...)
+	}
+	for _, r := range preSrc {
 		c.inOld = true // a precondition is evaluated before the call: no results
 		g := c.expr(r.Expr)
 		c.inOld = false
 		if c.failMsg != "" {
-			// an inexecutable precondition cannot be checked on the inputs; the
-			// replay still runs, and says so
 			rb.notes = append(rb.notes, "precondition not executable ("+c.failMsg+"): "+r.Src)
 			c.failMsg = ""
+			if strictPre {
+				return "", false
+			}
 			continue
 		}
 		pres = append(pres, g)
 	}
-	post := c.expr(clause.Expr)
-	if c.failMsg != "" {
-		rb.notes = append(rb.notes, "clause not executable: "+c.failMsg)
-		return "", false
+	// invariants of the receiver's type are assumed at entry like preconditions
+	if recv := fn.Signature.Recv(); recv != nil && len(fn.Params) > 0 {
+		T := recv.Type()
+		if pt, ok := T.(*types.Pointer); ok {
+			T = pt.Elem()
+		}
+		if n, ok := T.(*types.Named); ok && n.Obj().Pkg() != nil {
+			for _, iv := range x.cs.ObjInvs[n.Obj().Pkg().Path()+"."+n.Obj().Name()] {
+				c.env["self"] = "in0"
+				c.inOld = true
+				g := c.expr(iv.Expr)
+				c.inOld = false
+				delete(c.env, "self")
+				if c.failMsg != "" {
+					rb.notes = append(rb.notes, "receiver invariant not executable ("+c.failMsg+"): "+iv.Src)
+					c.failMsg = ""
+					if strictPre {
+						return "", false
+					}
+					continue
+				}
+				pres = append(pres, g)
+			}
+		}
+	}
+	post := ""
+	if clause != nil {
+		post = c.expr(clause.Expr)
+		if c.failMsg != "" {
+			rb.notes = append(rb.notes, "clause not executable: "+c.failMsg)
+			return "", false
+		}
 	}
 	var sb strings.Builder
 	sb.WriteString("\treplayIte := func(c bool, a, b func() any) any {\n\t\tif c {\n\t\t\treturn a()\n\t\t}\n\t\treturn b()\n\t}\n\t_ = replayIte\n")
-	sb.WriteString("\tdefer func() {\n\t\tif r := recover(); r != nil {\n\t\t\tfmt.Printf(\"REPLAY-CHECK-PANIC: %v\\n\", r)\n\t\t}\n\t}()\n")
+	sb.WriteString("\tconst replayLo, replayHi = -2, 260\n\treplayInU := func(v int64) {\n\t\tif v < replayLo+1 || v > replayHi-2 {\n\t\t\tpanic(fmt.Sprintf(\"a quantifier bound (%d) lies outside the universe the replay enumerates\", v))\n\t\t}\n\t}\n\t_ = replayInU\n")
+	sb.WriteString("\tphase := \"building the inputs\"\n")
+	sb.WriteString("\tdefer func() {\n\t\tif r := recover(); r != nil {\n\t\t\tif phase == \"call\" {\n\t\t\t\tfmt.Printf(\"REPLAY-PANIC: %v\\n\", r)\n\t\t\t} else {\n\t\t\t\tfmt.Printf(\"REPLAY-CHECK-PANIC: (%s) %v\\n\", phase, r)\n\t\t\t}\n\t\t}\n\t}()\n")
 	for _, d := range decls {
 		sb.WriteString(d + "\n")
 	}
@@ -554,29 +619,156 @@ func compilePostReplay(x *Exec, o *Oblig, rb *replayBuilder, decls []string, cal
 		fmt.Fprintf(&sb, "\t_ = in%d\n", i)
 	}
 	sort.Strings(c.order)
+	// declarations first (the spec functions may refer to each other), then the bodies
 	for _, h := range c.order {
-		sb.WriteString(c.helpers[h])
+		parts := strings.SplitN(c.helpers[h], "\n", 2)
+		sb.WriteString(parts[0] + "\n")
 		fmt.Fprintf(&sb, "\t_ = spec_%s\n", h)
 	}
-	for i, p := range pres {
-		fmt.Fprintf(&sb, "\tif !(%s) {\n\t\tfmt.Println(\"REPLAY-PRE-FALSE: requires clause %d does not hold on the inputs built from the model\")\n\t\treturn\n\t}\n", p, i)
+	for _, h := range c.order {
+		parts := strings.SplitN(c.helpers[h], "\n", 2)
+		if len(parts) == 2 {
+			sb.WriteString(parts[1])
+		}
 	}
+	sb.WriteString("\tphase = \"checking the precondition\"\n")
+	for i, p := range pres {
+		fmt.Fprintf(&sb, "\tif !(%s) {\n\t\tfmt.Println(\"REPLAY-PRE-FALSE: precondition clause %d does not hold on the inputs built from the model\")\n\t\treturn\n\t}\n", p, i)
+	}
+	fmt.Fprintf(&sb, "\tfmt.Println(\"REPLAY-PRE-OK: %d precondition clause(s) hold on these inputs\")\n", len(pres))
 	for _, o := range c.olds {
 		sb.WriteString(o)
 	}
+	sb.WriteString("\tphase = \"call\"\n")
 	if c.results > 0 {
 		var rs []string
 		for i := 0; i < c.results; i++ {
 			rs = append(rs, fmt.Sprintf("r%d", i))
 		}
 		fmt.Fprintf(&sb, "\t%s := %s\n", strings.Join(rs, ", "), call)
+		sb.WriteString("\tphase = \"checking the clause\"\n")
 		for _, r := range rs {
 			fmt.Fprintf(&sb, "\t_ = %s\n", r)
 		}
 		fmt.Fprintf(&sb, "\tfmt.Printf(\"REPLAY-RESULT: %%#v\\n\", []any{%s})\n", strings.Join(rs, ", "))
 	} else {
 		sb.WriteString("\t" + call + "\n")
+		sb.WriteString("\tphase = \"checking the clause\"\n")
 	}
-	fmt.Fprintf(&sb, "\tif %s {\n\t\tfmt.Println(\"REPLAY-POST-TRUE\")\n\t} else {\n\t\tfmt.Println(\"REPLAY-POST-FALSE: ensures[%s] is false for the real function on these inputs\")\n\t}\n", post, strings.ReplaceAll(clause.Label, "\"", "'"))
+	if clause != nil {
+		fmt.Fprintf(&sb, "\tif %s {\n\t\tfmt.Println(\"REPLAY-POST-TRUE\")\n\t} else {\n\t\tfmt.Println(\"REPLAY-POST-FALSE: ensures[%s] is false for the real function on these inputs\")\n\t}\n", post, strings.ReplaceAll(clause.Label, "\"", "'"))
+	} else {
+		sb.WriteString("\tfmt.Println(\"REPLAY-NO-FAILURE\")\n")
+	}
 	return sb.String(), true
+}
+
+// relaxQuery makes a query quantifier-free so that the solver can produce a
+// model: every quantifier over integer variables (at most three) is replaced
+// by the conjunction (forall) or disjunction (exists) of its instances over a
+// small index domain (-1..5; with the slices of the inputs limited to 4
+// elements these are the instances that matter for index-style quantifiers),
+// whatever its polarity; a quantifier over anything else becomes true. The
+// result is neither weaker nor stronger than the query in general: a model of
+// it is only a candidate input, which counts for nothing unless the replay on
+// the real code, which re-checks the precondition there, fails.
+func relaxQuery(q string) string {
+	var out []string
+	for _, l := range strings.Split(q, "\n") {
+		if !strings.HasPrefix(l, "(assert") || !(strings.Contains(l, "(forall ") || strings.Contains(l, "(exists ")) {
+			out = append(out, l)
+			continue
+		}
+		toks := tokenizeSexp(l)
+		pos := 0
+		var parse func() interface{}
+		parse = func() interface{} {
+			if pos >= len(toks) {
+				return ""
+			}
+			t := toks[pos]
+			pos++
+			if t == "(" {
+				l := []interface{}{}
+				for pos < len(toks) && toks[pos] != ")" {
+					l = append(l, parse())
+				}
+				pos++
+				return l
+			}
+			return t
+		}
+		tree := parse()
+		out = append(out, sexpString(relaxTerm(tree)))
+	}
+	return strings.Join(out, "\n")
+}
+
+var relaxDom = []string{"(- 1)", "0", "1", "2", "3", "4", "5"}
+
+func relaxTerm(e interface{}) interface{} {
+	l, ok := e.([]interface{})
+	if !ok || len(l) == 0 {
+		return e
+	}
+	head, _ := l[0].(string)
+	if (head == "forall" || head == "exists") && len(l) == 3 {
+		binders, _ := l[1].([]interface{})
+		var names []string
+		allInt := true
+		for _, b := range binders {
+			bl, ok := b.([]interface{})
+			if !ok || len(bl) != 2 {
+				allInt = false
+				break
+			}
+			n, _ := bl[0].(string)
+			srt, _ := bl[1].(string)
+			if srt != "Int" {
+				allInt = false
+				break
+			}
+			names = append(names, n)
+		}
+		if !allInt || len(names) == 0 || len(names) > 3 {
+			return "true"
+		}
+		body := l[2]
+		if bl, ok := body.([]interface{}); ok && len(bl) >= 2 {
+			if h, _ := bl[0].(string); h == "!" {
+				body = bl[1]
+			}
+		}
+		body = relaxTerm(body)
+		comb := []interface{}{"and"}
+		if head == "exists" {
+			comb = []interface{}{"or"}
+		}
+		idx := make([]int, len(names))
+		for {
+			var bs []interface{}
+			for k, n := range names {
+				bs = append(bs, []interface{}{n, relaxDom[idx[k]]})
+			}
+			comb = append(comb, []interface{}{"let", bs, body})
+			k := 0
+			for k < len(idx) {
+				idx[k]++
+				if idx[k] < len(relaxDom) {
+					break
+				}
+				idx[k] = 0
+				k++
+			}
+			if k == len(idx) {
+				break
+			}
+		}
+		return comb
+	}
+	out := make([]interface{}, len(l))
+	for i, x := range l {
+		out[i] = relaxTerm(x)
+	}
+	return out
 }
